@@ -894,6 +894,115 @@ example : textFromJds .isot (tai2utc taiutc consts.tol ⟨2457754 + 1 / 2, (73 /
     textFromJds .isot (tai2utc taiutc consts.tol ⟨2457754 + 1 / 2, (71 / 2) / 86400⟩) = "2016-12-31T23:59:59.500000".toList := by
   decide +kernel
 
+/-! ### `_year2days` is the source; the domain of the decimal-year constructor -/
+
+/-- the Time built from `datetime(y, 1, 1)` — what `_year2days` and `_dy2jd` call `TimeArray.create(datetime(y, 1, 1), …)` — is
+`(yearStartJd1 y, 0)` -/
+theorem newYear_jds (y : Int) : dtToJds (ofFields ⟨y, 1, 1, 0, 0, 0, 0⟩) = ⟨yearStartJd1 y, 0⟩ := by
+  have h : (daysFromCivil y 1 1 * usPerDay + ((0 * 60 + 0) * 60 + 0) * usPerSec + 0) / usPerDay = daysFromCivil y 1 1 := by
+    have : (0 : Int) < usPerDay := by decide
+    rw [show daysFromCivil y 1 1 * usPerDay + ((0 * 60 + 0) * 60 + 0) * usPerSec + 0 = daysFromCivil y 1 1 * usPerDay by ring]
+    exact Int.mul_ediv_cancel _ (ne_of_gt this)
+  simp only [dtToJds, ofFields, h, yearStartJd1, JD.mk.injEq, true_and]
+  have : ((daysFromCivil y 1 1 * usPerDay + ((0 * 60 + 0) * 60 + 0) * usPerSec + 0 - daysFromCivil y 1 1 * usPerDay : Int) : Rat) = 0 := by
+    push_cast; ring
+  rw [this, zero_div]
+
+open Midgard.Generated in
+/-- **`TimeDecimalYear._year2days`, statement by statement** (the guard for `datetime.max.year` = 9999, the two Times at New
+Year, in UTC their TAI images by `_utc2tai`, `TimeArray.__sub__` and the `days` format as regenerated for C03): the model's
+`year2days` is that function, with the New-Year Time of `newYear_jds` and C01's `utc2tai`. -/
+theorem source_year2days (tbl : List Row) (tol : Rat) (y : Int) (s : Scale) :
+    year2days tbl tol y .utc = SrcTimeFmt.year2daysUtcSrc 9999 y (fun n => (yearStartJd1 n, 0))
+      (fun p => ((utc2tai tbl tol ⟨p.1, p.2⟩).jd1, (utc2tai tbl tol ⟨p.1, p.2⟩).jd2)) ∧
+    (s ≠ .utc → year2days tbl tol y s = SrcTimeFmt.year2daysOtherSrc 9999 y (fun n => (yearStartJd1 n, 0))) := by
+  constructor
+  · simp only [year2days, SrcTimeFmt.year2daysUtcSrc, SrcTime.timeSubTimeSrc, SrcTime.deltaDayFromJdsSrc]
+  · intro hs
+    cases s <;>
+      (first | exact absurd rfl hs | simp only [year2days, SrcTimeFmt.year2daysOtherSrc, SrcTime.timeSubTimeSrc, SrcTime.deltaDayFromJdsSrc])
+
+/-- whenever the constructor succeeds it stores what the format interface `toJdsF` gives -/
+theorem dyConstruct_ok (tbl : List Row) (tol : Rat) (s : Scale) (v : Rat) (j : JD) (h : dyConstruct tbl tol s v = .ok j) :
+    toJdsF tbl tol .decimalyear s (.num v) = some j := by
+  unfold dyConstruct at h
+  simp only at h
+  split_ifs at h with h1 h2 h3 h4
+  simp only [DyOutcome.ok.injEq] at h
+  simp [toJdsF, dyToJdsG, h1, h]
+
+theorem yearStart_mono_2 (y : Int) (h : 2 ≤ y) : yearStartJd1 2 ≤ yearStartJd1 y := by
+  have : daysFromCivil 2 1 1 ≤ daysFromCivil y 1 1 := by
+    simp only [daysFromCivil, dfc_eq, yearBase]; norm_num; omega
+  simp only [yearStartJd1]
+  have : ((daysFromCivil 2 1 1 : Int) : Rat) ≤ ((daysFromCivil y 1 1 : Int) : Rat) := by exact_mod_cast this
+  linarith
+
+theorem yearStart_mono_9999 (y : Int) (h : y ≤ 9999) : yearStartJd1 y ≤ yearStartJd1 9999 := by
+  have : daysFromCivil y 1 1 ≤ daysFromCivil 9999 1 1 := by
+    simp only [daysFromCivil, dfc_eq, yearBase]; norm_num; omega
+  simp only [yearStartJd1]
+  have : ((daysFromCivil y 1 1 : Int) : Rat) ≤ ((daysFromCivil 9999 1 1 : Int) : Rat) := by exact_mod_cast this
+  linarith
+
+/-- **The constructor's domain contains every decimal year from 2.0 up to (not including) 9999.0** in every scale but UTC
+(`dyAccepts` is the decidable domain; its edges — year 1, the first twelve hours of it, year 1 in UTC, the values next to
+10000 — are compared with the real code by the check) -/
+theorem dy_accepts_range (tbl : List Row) (tol : Rat) (s : Scale) (hs : s ≠ .utc) (v : Rat) (h2 : 2 ≤ v) (h9 : v < 9999) :
+    dyAccepts tbl tol s v = true := by
+  have hv0 : 0 ≤ v := by linarith
+  have hy : truncRat v = v.floor := truncRat_nonneg v hv0
+  have hf1 : (2 : Int) ≤ v.floor := Rat.le_floor_iff.mpr (by push_cast; linarith)
+  have hf2 : v.floor < 9999 := Rat.floor_lt_iff.mpr (by push_cast; linarith)
+  have hfr := frac_range v
+  have hL := (year2days_calendar tbl tol v.floor s hs).1
+  have hLc := yearLen_cases v.floor
+  have hinst := dy_inst tbl tol s v hv0
+  have hlo := yearStart_mono_2 v.floor hf1
+  have hhi := yearStart_mono_9999 (v.floor + 1) (by omega)
+  rw [yearStart_succ] at hhi
+  have e2 : yearStartJd1 2 = 3443581 / 2 := by simp only [yearStartJd1, jd2000dt]; norm_num [daysFromCivil, daysFromCivil1970, doeOfCivil, epoch2000]
+  have e9 : yearStartJd1 9999 = 10746239 / 2 := by simp only [yearStartJd1, jd2000dt]; norm_num [daysFromCivil, daysFromCivil1970, doeOfCivil, epoch2000]
+  -- the Julian date of v
+  set j := dyToJds tbl tol s v with hj
+  have hjlo : yearStartJd1 2 ≤ j.inst := by
+    rw [hinst, hL]; rcases hLc with h | h <;> rw [h] <;> nlinarith [hfr.1]
+  have hjhi : j.inst < yearStartJd1 9999 := by
+    rw [hinst, hL]; rcases hLc with h | h <;> rw [h] at hhi ⊢ <;> nlinarith [hfr.2]
+  obtain ⟨⟨k, hk⟩, hn0, hn1⟩ := dy_normalised tbl tol s v (by rw [← hy] at hinst; rw [← hinst]; linarith [e2])
+  have hj1 : (1721426 : Rat) ≤ j.jd1 := by
+    have : (1721789 : Rat) < (k : Rat) := by
+      have := hjlo; simp only [JD.inst] at this; rw [e2, hk] at this; linarith
+    have : (1721789 : Int) < k := by exact_mod_cast this
+    rw [hk]; exact_mod_cast (by omega : (1721426 : Int) ≤ k)
+  have hdt : ¬ dtMax < dtFromJds j := by
+    have a := rhe_close ((j.jd1 - jd2000dt) * (usPerDay : Rat))
+    have b := rhe_close (j.jd2 * (usPerDay : Rat))
+    rw [abs_le] at a b
+    have hmax : (dtMax : Rat) = (10746239 / 2 + 365 - 4903089 / 2) * 86400000000 - 1 := by
+      have : dtMax = 252455615999999999 := by decide +kernel
+      rw [this]; norm_num
+    have : ((dtFromJds j : Int) : Rat) ≤ (dtMax : Rat) := by
+      have hU : ((usPerDay : Int) : Rat) = 86400000000 := by norm_num [usPerDay]
+      simp only [dtFromJds]; push_cast
+      rw [hmax]
+      simp only [hU, jd2000dt] at a b ⊢
+      simp only [JD.inst] at hjhi; rw [e9] at hjhi
+      linarith [a.2, b.2, hjhi]
+    exact not_lt.mpr (by exact_mod_cast this)
+  have c1 : ¬ ¬ (1 ≤ v.floor ∧ v.floor ≤ 9999) := not_not.mpr ⟨by omega, by omega⟩
+  have c2 : ¬ (s = .utc ∧ v.floor ≠ 9999 ∧ dtFromJds (utc2tai tbl tol ⟨yearStartJd1 v.floor, 0⟩) < dtMin) := fun h => hs h.1
+  have c3 : ¬ j.jd1 < 1721426 := not_lt.mpr hj1
+  simp only [dyAccepts, dyConstruct, hy, if_neg c1, if_neg c2, ← hj, if_neg c3, if_neg hdt]
+
+-- the domain at its edges, evaluated: year 1 in UTC and the first twelve hours of year 1 are refused, the rest of year 1,
+-- years 2 and 9999 are accepted, year 10000 is not
+example : dyAccepts taiutc consts.tol .utc (3 / 2) = false ∧ dyAccepts taiutc consts.tol .tt 1 = false ∧
+    dyAccepts taiutc consts.tol .tt (3 / 2) = true ∧ dyAccepts taiutc consts.tol .utc 2 = true ∧
+    dyAccepts taiutc consts.tol .utc (19999 / 2) = true ∧ dyAccepts taiutc consts.tol .gps 10000 = false ∧
+    dyConstruct taiutc consts.tol .utc (3 / 2) = .overflow ∧ dyConstruct taiutc consts.tol .tai (1 / 2) = .valueError := by
+  decide +kernel
+
 end AllFormats
 
 /-! ### Constants of the format classes -/
@@ -931,7 +1040,8 @@ that the model definitions the other theorems of this file are about are *equal*
 definitions, with the unit factors the code reads from `Unit` given their defining values.  `_dy2jd` / `_jd2dy` of decimalyear and the
 input-shape dispatch (idiom per class, branch chain of `TimeGPSWeekSec._to_jds`) come from `translator/extract_timefmt.py`
 (`source_decimalyear`, `source_dispatch` above).  Hand-modelled and tied by the correspondence only: datetime, the text
-formats (CPython's datetime, strftime/strptime), `_year2days` (Time construction and scale conversion), the guards that raise. -/
+formats (CPython's datetime, strftime/strptime), the guards that raise (`_year2days` is tied by `source_year2days`: the
+Time at New Year is `newYear_jds`, the conversion C01's `utc2tai`, subtraction and `.days` the definitions regenerated for C03). -/
 section Source
 open Midgard.Generated
 set_option linter.unusedTactic false
@@ -1055,3 +1165,9 @@ end Midgard.Props.C02
 #print axioms Midgard.Props.C02.trunc_src
 #print axioms Midgard.Props.C02.source_decimalyear
 #print axioms Midgard.Props.C02.leap_second_text
+#print axioms Midgard.Props.C02.newYear_jds
+#print axioms Midgard.Props.C02.source_year2days
+#print axioms Midgard.Props.C02.dyConstruct_ok
+#print axioms Midgard.Props.C02.yearStart_mono_2
+#print axioms Midgard.Props.C02.yearStart_mono_9999
+#print axioms Midgard.Props.C02.dy_accepts_range
